@@ -474,6 +474,99 @@ def c07_get(roles, behaviours, banned, requested, hc_timeout):
     return f
 
 
+@expectation('c07_get_shard')
+def c07_get_shard():
+    """Native: a two-shard pool (shard 0: primary + replica, shard 1: primary only) of real bb8 pools against scripted servers: whatever shard and
+    role are asked for, the server handed out belongs to that shard."""
+    def f(res):
+        for r in res:
+            if 'error' in r or 'panic' in r:
+                return False, 'native: %r' % (r,)
+            bad = [x for x in r.get('gets', []) if x.get('got_shard') is not None and (x['got_shard'] != x['shard'] or (x.get('role') and x.get('got_role') != x['role']))]
+            bad = bad[:3]
+            if bad:
+                return True, 'native: ConnectionPool::get(shard, role) handed out a server of another shard or role: %r' % (bad,)
+        return False, 'native: every server handed out belongs to the requested shard: %r' % (res,)
+    return f
+
+
+def o5_get_shard(chk, prog, props=('C07',), only=None):
+    """ConnectionPool::get never leaves the requested shard -- whatever the role asked for and whether the shard has such a server."""
+    name = 'O5-get-shard'
+    ob = chk.begin(name, 'ConnectionPool::get on a pool of two shards (shard 0: primary + replica, shard 1: a primary only), requested shard (none / 0 / 1) and role '
+                   '(none / primary / replica) chosen by the solver, every checkout succeeding: a server that is handed out belongs to the requested shard (none = shard 0) '
+                   'and has the requested role; every candidate considered belongs to that shard', {'shards': [['primary', 'replica'], ['primary']]})
+    get = fn(prog, 'ConnectionPool::get')
+    ip = chk.interp(prog, name)
+    install_stats_noops(ip)
+    ip.overrides.append((re.compile(r'^bb8::Pool::<.*>::get$'), lambda c, poolp: Opaque('IoFuture', 'bb8get', deref(c.ip, poolp))))
+    ip.overrides.append((re.compile(r'^<(?:bb8::)?PooledConnection<.*> as (?:std::ops::)?(?:Deref|DerefMut)>::(deref|deref_mut)$'), lambda c, p: deref(c.ip, p).fields[0]))
+
+    def poll_hook(ip_, co, ptr):
+        if isinstance(co, Opaque) and co.tag == 'bb8get':
+            info = co.data.data
+            ip_.env.setdefault('consulted', []).append(info['idx'])
+            return EnumV(BV(64, 0), {'Ready': [EnumV(BV(64, 0), {'Ok': [Agg([Ptr(info['server_cell'], ())], 'PooledConnection')]}, 'Result')]}, 'Poll')
+        raise Inconclusive('poll of %r' % (co,))
+    ip.poll_hook = poll_hook
+
+    def harness(ip_):
+        layout = [(0, ROLE_P, 0), (1, ROLE_R, 0), (2, ROLE_P, 1)]
+        addrs, pools = {}, {}
+        for idx, role, sh in layout:
+            a = mk_addr(ip_, prog, idx, role, shard=sh)
+            setf(prog, a, 'Address', 'address_index', BV(64, 0 if idx == 2 else idx))
+            st = StreamV([BV(8, x) for x in b'I\x00\x00\x00\x04Z\x00\x00\x00\x05I'], 'server%d' % idx)
+            la = ip_.fresh(64, 'last_activity%d' % idx)
+            ip_.assume(z3.ULT(la.v, 1 << 50))
+            srv = mk_server(ip_, prog, st, address=clone_addr(a), last_activity=Agg([la], 'SystemTime'))
+            info = {'idx': idx, 'server_cell': Cell(srv, 'server%d' % idx)}
+            addrs[idx] = a
+            pools[idx] = Opaque('Bb8Pool', 'pool%d' % idx, info)
+        pool, ps = mk_pool(ip_, prog, [[addrs[0], addrs[1]], [addrs[2]]], [MapV('hashmap'), MapV('hashmap')], ban_time=BV(64, 1 << 62),
+                           databases=[Seq([pools[0], pools[1]], 'vec'), Seq([pools[2]], 'vec')], settings_over={'healthcheck_timeout': BV(64, 1000), 'healthcheck_delay': BV(64, 1 << 40)})
+        setf(prog, ps, 'PoolSettings', 'shards', BV(64, 2))
+        # (what the ROUTER may do with a read is none of the pool's business: the role it is asked for is the role it hands out)
+        setf(prog, ps, 'PoolSettings', 'primary_reads_enabled', ip_.fresh(1, 'primary_reads_enabled'))
+        want_role = sym_option(ip_, sym_enum(ip_, 'Role', 'want_role', ('Primary', 'Replica')), 'want_role')
+        k = ip_.choose(3, 'want_shard')
+        want_shard = none(ip_) if k == 0 else some(ip_, BV(64, k - 1))
+        sh_req = 0 if k == 0 else k - 1
+        try:
+            r = ip_.drive(ip_.call_function(get, [Ptr(Cell(pool, 'pool')), want_shard, want_role, Ptr(Cell(Opaque('ClientStats', 'client_stats'), 'cstats'))]))
+        except Panic as p:
+            if 'elapsed' in p.msg or 'unwrap' in p.msg.lower():
+                return
+            raise Inconclusive('ConnectionPool::get panic: ' + p.msg)
+        ob.nontrivial += 1
+        if decide(ip_, want_role.discr.v == 0):
+            wr = None
+        else:
+            wr = 0 if decide(ip_, want_role.variants['Some'][0].discr.v == 0) else 1
+        consulted = ip_.env.get('consulted', [])
+        shard_of = {idx: sh for idx, _r, sh in layout}
+        role_of = {idx: r_ for idx, r_, _s in layout}
+        what, key = None, 'get-leaves-shard'
+        stray = [i for i in consulted if shard_of[i] != sh_req]
+        if stray:
+            what = 'asked for shard %d (role %s), it tries server(s) %r of another shard' % (sh_req, {None: 'any', 0: 'primary', 1: 'replica'}[wr], stray)
+        if variant(ip_, r, 'Result') == 'Ok':
+            got = getf(prog, payload(r, 'Ok')[0].fields[1], 'Address', 'id').v
+            if shard_of[got] != sh_req:
+                what = 'asked for shard %d (role %s), it hands out server %d of shard %d: the statement runs on another shard\'s data' % (sh_req, {None: 'any', 0: 'primary', 1: 'replica'}[wr], got, shard_of[got])
+            elif wr is not None and role_of[got] != wr and not what:
+                key = 'get-wrong-role'
+                what = 'asked for a %s of shard %d, it hands out server %d, a %s' % ('primary' if wr == 0 else 'replica', sh_req, got, 'primary' if role_of[got] == 0 else 'replica')
+        if what and (only is None or key in only):
+            for prop_ in props:
+                chk.report(ob, '%s/O5/%s' % (prop_, key), 'ConnectionPool::get: ' + what, {'shard': sh_req, 'role': wr}, {'commands': [{'op': 'get_shard_scenario'}], 'expect': ['c07_get_shard']})
+        if len(ob.samples) < 3:
+            ob.samples.append({'shard': sh_req, 'role': wr, 'consulted': list(consulted), 'result': variant(ip_, r, 'Result')})
+    ip.explore(harness)
+    chk.absorb(ob, ip)
+    chk.end(ob)
+
+
 def _dispatch(chk, f, args):
     f(chk, *args)
 
@@ -509,6 +602,7 @@ def main(chk):
         tasks.append((o3_get, (prog, roles, list(banned))))
     for layout in ((('a', 'a', 'b'),), (('a', 'a', 'b'), ('a', 'b', 'a'))):
         tasks.append((o4_host_lookup, (prog, layout)))
+    tasks.append((o5_get_shard, (prog,)))
     chk.parallel(_dispatch, tasks)
     # bans are keyed by the addresses of the pool that issued them: a pool re-created by a reload starts with an empty ban list of its own shape
     # (the from_config rebuild obligation of C14, instantiated for this property)
